@@ -93,15 +93,16 @@ theorem intValid_eq_partial (v : ValidExpr) (hb : v.bounded = true) (x : Int) :
     · exact absurd (h.mp (by rw [hb'])) hm
 
 /-- what the loader and the check do together with a rendered expression: never rejected, verdict as above -/
-theorem loadAndCheck_render (v : ValidExpr) (hb : v.bounded = true) (x : Int) :
+theorem loadAndCheck_render_partial (v : ValidExpr) (hb : v.bounded = true) (x : Int) :
     loadAndCheckInt v.render x = .verdict (.ok (decide (v.mem x))) := by
   unfold loadAndCheckInt
   rw [render_compliant, intValid_eq_partial v hb x]
   rfl
 
-/-- checker layer (decision only): with a Known constant argument `x`, invalidFunctionArg is reported exactly when
-`x` lies outside the declared ranges -/
-theorem invalidArg_reported_iff (v : ValidExpr) (hb : v.bounded = true) (x : Int) :
+/-- checker layer, **value message only** (`Token::getInvalidValue` → "The value is x but the valid values are …"):
+with a Known constant argument `x` that message is reported exactly when `x` lies outside the declared ranges.
+The same finding id is also produced by the boolean block of invalidFunctionUsage; see section 3b for the id. -/
+theorem invalidValueMsg_reported_iff_partial (v : ValidExpr) (hb : v.bounded = true) (x : Int) :
     reportsInvalidArg v.render x = some true ↔ ¬ v.mem x := by
   unfold reportsInvalidArg
   rw [intValid_eq_partial v hb x]
@@ -139,7 +140,7 @@ theorem old_single_value_clause_counterexample :
 
 /-- Any accepted text that tokenises into the documented grammar behaves like the rendered expression: the
 statement is about the text, not only about texts produced by `render`. -/
-theorem intValid_of_parse (s : Str) (v : ValidExpr) (hs : s.isEmpty = false) (hd : s.contains '.' = false)
+theorem intValid_of_parse_partial (s : Str) (v : ValidExpr) (hs : s.isEmpty = false) (hd : s.contains '.' = false)
     (hp : parseValid s = some v) (hb : v.bounded = true) (x : Int) :
     isIntArgValid s x = .ok (v.ranges.any (Range.memB x)) := by
   unfold parseValid at hp
@@ -212,7 +213,7 @@ theorem argDecision_invalidValue_independent (valid : Str) (notbool notbool' isB
 
 /-- for an expression of the grammar with int64 bounds the decision never fails and both verdicts are as declared:
 value message ⇔ the Known value lies outside the ranges; bool message ⇔ boolean expression ∧ not-bool -/
-theorem argDecision_render (v : ValidExpr) (hb : v.bounded = true) (notbool isBool : Bool) (known : Option Int) :
+theorem argDecision_render_partial (v : ValidExpr) (hb : v.bounded = true) (notbool isBool : Bool) (known : Option Int) :
     ∃ r, argDecision v.render notbool isBool known = some r
       ∧ r.notBool = (isBool && notbool)
       ∧ (r.invalidValue = true ↔ ∃ x, known = some x ∧ ¬ v.mem x) := by
@@ -242,13 +243,63 @@ theorem argDecision_render (v : ValidExpr) (hb : v.bounded = true) (notbool isBo
     simp only [hx]
     by_cases m : v.mem x <;> simp [m]
 
+/-- closed form of the third output: the "0 or 1 (boolean)" message of invalidFunctionArg is produced exactly for a
+boolean expression without `<not-bool/>` whose declared ranges miss 0 or miss 1 — whatever the value of the argument is -/
+theorem argDecision_boolRange_partial (v : ValidExpr) (hb : v.bounded = true) (notbool isBool : Bool) (known : Option Int)
+    (r : ArgReport) (h : argDecision v.render notbool isBool known = some r) :
+    r.boolRange = (isBool && !notbool && (!decide (v.mem 0) || !decide (v.mem 1))) := by
+  have hx : ∀ x, isIntArgValid v.render x = .ok (decide (v.mem x)) := intValid_eq_partial v hb
+  unfold argDecision at h
+  simp only [hx] at h
+  cases known <;> by_cases c : (isBool && !notbool) = true <;> by_cases m0 : v.mem 0 <;> by_cases m1 : v.mem 1 <;>
+    simp_all <;> (subst h; simp_all)
+
+/-- Exact rule for the id: reported ⇔ the Known value is outside the ranges, **or** the argument is a boolean expression
+without `<not-bool/>` and the ranges do not contain both 0 and 1. -/
+theorem invalidArg_id_exact_partial (v : ValidExpr) (hb : v.bounded = true) (notbool isBool : Bool) (known : Option Int)
+    (r : ArgReport) (h : argDecision v.render notbool isBool known = some r) :
+    r.idInvalidArg = true ↔ (∃ x, known = some x ∧ ¬ v.mem x) ∨ (isBool = true ∧ notbool = false ∧ (¬ v.mem 0 ∨ ¬ v.mem 1)) := by
+  obtain ⟨r', hr', -, hv⟩ := argDecision_render_partial v hb notbool isBool known
+  rw [h] at hr'; injection hr' with hr'; subst hr'
+  have hbr := argDecision_boolRange_partial v hb notbool isBool known r h
+  unfold ArgReport.idInvalidArg
+  rw [Bool.or_eq_true, hv, hbr]
+  cases isBool <;> cases notbool <;> by_cases m0 : v.mem 0 <;> by_cases m1 : v.mem 1 <;> simp [m0, m1]
+
+/-- The property as the text states it — for a constant argument, invalidFunctionArg ⇔ the constant lies outside the declared
+ranges — holds for arguments that are not boolean expressions (and for boolean ones with `<not-bool/>`). -/
+theorem invalidArg_id_iff_partial (v : ValidExpr) (hb : v.bounded = true) (notbool isBool : Bool) (x : Int)
+    (hnb : isBool = false ∨ notbool = true) (r : ArgReport) (h : argDecision v.render notbool isBool (some x) = some r) :
+    r.idInvalidArg = true ↔ ¬ v.mem x := by
+  rw [invalidArg_id_exact_partial v hb notbool isBool (some x) r h]
+  constructor
+  · rintro (⟨y, hy, hm⟩ | ⟨h1, h2, -⟩)
+    · injection hy with hy; subst hy; exact hm
+    · rcases hnb with h' | h' <;> simp_all
+  · intro hm; exact Or.inl ⟨x, rfl, hm⟩
+
+example : (false = false ∨ true = true) := Or.inl rfl
+
+/-- … and is **false of the code** for boolean expressions: `f(1==1)` with `<valid>1:5</valid>` has the Known value 1,
+which lies inside 1:5, yet invalidFunctionArg ("The value is 0 or 1 (boolean) …") is reported because 0 is outside
+(known finding `bool-arg-range-message-constant-inside`). -/
+theorem invalidArg_id_counterexample_bool :
+    ¬ ∀ (v : ValidExpr) (notbool isBool : Bool) (x : Int) (r : ArgReport), v.bounded = true →
+        argDecision v.render notbool isBool (some x) = some r → (r.idInvalidArg = true ↔ ¬ v.mem x) := by
+  intro h
+  obtain ⟨r, hr, -, -⟩ := argDecision_render_partial ⟨.closed 1 5, []⟩ (by decide) false true (some 1)
+  have h1 := h ⟨.closed 1 5, []⟩ false true 1 r (by decide) hr
+  have h2 := (invalidArg_id_exact_partial ⟨.closed 1 5, []⟩ (by decide) false true (some 1) r hr).mpr
+    (Or.inr ⟨rfl, rfl, Or.inl (by decide)⟩)
+  exact absurd (by decide : ValidExpr.mem 1 ⟨.closed 1 5, []⟩) (h1.mp h2)
+
 /-! ## 4. Library::isFloatArgValid with integer bounds -/
 
 /-- For every expression whose bounds are integers of magnitude < 2^53 (exactly representable) and **every**
 finite double `x` (given exactly as the integer `x·2^1074`): the code accepts `x` iff it lies in one of the
 *ranges* of the expression, compared exactly; an integer-formatted *single value* is never matched by a float argument
 (the clause `%num% && MathLib::isFloat(tok->str())`, asserted by test/testlibrary.cpp for `1:5,8` and 8.0). -/
-theorem floatValid_intBounds (v : ValidExpr) (hb : v.bounded53 = true) (x : Dbl) :
+theorem floatValid_intBounds_partial (v : ValidExpr) (hb : v.bounded53 = true) (x : Dbl) :
     isFloatArgValid v.render x = .ok (v.ranges.any (Range.memFloatB x)) :=
   isFloatArgValid_renderRanges v.ranges (by simp [ValidExpr.ranges]) hb x
 
@@ -297,5 +348,59 @@ theorem loadArgs_notnull (ds : List ArgDecl) (k : Int) :
 theorem loadArgs_has (ds : List ArgDecl) (k : Int) :
     hasAt (loadArgs ds) k = ds.any (fun d => decide (d.nr = k)) := by
   rw [loadArgs_eq, hasAt_foldl]; rfl
+
+/-- end to end over the loader (composition of `getarg_eq`, `loadArgs_notbool`, `loadArgs_has`): for the function built
+from the `<arg>` elements `ds`, a call argument `k` is not-bool-restricted exactly when the call matches the configured
+argument count and — if some element has `nr = k` — one of *those* declares `<not-bool/>`, otherwise one of the
+any/variadic elements (`nr = -1`) does. -/
+theorem isboolargbad_loadArgs_iff (fmt : Nat) (ds : List ArgDecl) (ncall : Nat) (k : Int) :
+    isboolargbad ⟨fmt, loadArgs ds⟩ ncall k = true ↔
+      matchArguments ⟨fmt, loadArgs ds⟩ ncall = true ∧
+      (if ds.any (fun d => decide (d.nr = k)) = true then ds.any (fun d => decide (d.nr = k) && d.notbool) = true
+       else ds.any (fun d => decide (d.nr = -1) && d.notbool) = true) := by
+  have hh := loadArgs_has ds k
+  have hk := loadArgs_notbool ds k
+  have hm := loadArgs_notbool ds (-1)
+  unfold hasAt at hh
+  unfold nbAt at hk hm
+  unfold isboolargbad
+  rw [getarg_eq]
+  by_cases hma : matchArguments ⟨fmt, loadArgs ds⟩ ncall = true
+  · simp only [hma, if_true, true_and]
+    cases hl : lookup (loadArgs ds) k with
+    | some a =>
+      rw [hl] at hh hk
+      simp only [Option.isSome_some] at hh
+      simp only [← hh, if_true, ← hk]
+    | none =>
+      rw [hl] at hh
+      simp only [Option.isSome_none] at hh
+      simp only [← hh, Bool.false_eq_true, if_false, ← hm]
+      cases lookup (loadArgs ds) (-1) <;> simp
+  · simp [hma]
+
+theorem isnullargbad_loadArgs_iff (ds : List ArgDecl) (ncall : Nat) (k : Int)
+    (hma : matchArguments ⟨0, loadArgs ds⟩ ncall = true) :
+    isnullargbad ⟨0, loadArgs ds⟩ ncall k = true ↔
+      (if ds.any (fun d => decide (d.nr = k)) = true then ds.any (fun d => decide (d.nr = k) && d.notnull) = true
+       else ds.any (fun d => decide (d.nr = -1) && d.notnull) = true) := by
+  have hh := loadArgs_has ds k
+  have hk := loadArgs_notnull ds k
+  have hm := loadArgs_notnull ds (-1)
+  unfold hasAt at hh
+  unfold nnAt at hk hm
+  unfold isnullargbad
+  rw [getarg_eq]
+  simp only [hma, if_true]
+  cases hl : lookup (loadArgs ds) k with
+  | some a =>
+    rw [hl] at hh hk
+    simp only [Option.isSome_some] at hh
+    simp only [← hh, if_true, ← hk]
+  | none =>
+    rw [hl] at hh
+    simp only [Option.isSome_none] at hh
+    simp only [← hh, Bool.false_eq_true, if_false, ← hm]
+    cases lookup (loadArgs ds) (-1) <;> simp
 
 end Cppcheck.LibValid
